@@ -15,12 +15,14 @@
  *                      does: a pointer into the NUL terminated text  local ++ tail
  *   vpb                "!" = no control/vpopbounce, else hex of the file
  *   flags              bit0: err_control()/err_control2() report a failed network write
+ *                      bit1: user_exists() is called twice on the same struct userconf (no userconf_free() between)
+ *                      bit2: control/filterconf exists
  *   cdb                "!" absent | "dir" | "-" empty file | raw:<hex image> | k=v,k=v (hex)
  *   entries            "-" | name:kind:content,...  kind d (directory; content = its filterconf,
  *                      "!" = none) or f (file)
  *   inject             "-" | path:errno,...   path compared with the path handed to open/openat;
- *                      "#read" = read() of .qmail-default fails
- * answer:   r=<ret> dp=<hex domainpath> dom=<hex path|-> usr=<hex path|-> ec=<n> gf=<type>:<hex path>|<type>:E<errno>|-
+ *                      "#read" = read() of .qmail-default fails, "#mmap" = mmap() of users/cdb fails
+ * answer:   r=<ret> dp=<hex domainpath> dom=<hex path|-> usr=<hex path|-> ec=<n> gf=<type>:<hex path>|<type>:E<errno>|- gg=<same with userconf_global>
  *           opened=<hex dir>:<hex name>,...   (every openat() relative to a descriptor, in order)
  */
 #define _GNU_SOURCE
@@ -53,7 +55,8 @@ static int inj_lookup(const char *p)
 static void record(int dirfd, const char *p)
 {
 	char lnk[64], dir[PATH_MAX];
-	if (nopened >= 256 || dirfd == AT_FDCWD) return;
+	/* a path of PATH_MAX bytes or more is refused by the kernel before any component is resolved; "" likewise */
+	if (nopened >= 256 || dirfd == AT_FDCWD || strlen(p) >= PATH_MAX || !*p) return;
 	snprintf(lnk, sizeof(lnk), "/proc/self/fd/%d", dirfd);
 	ssize_t n = readlink(lnk, dir, sizeof(dir) - 1);
 	if (n < 0) n = 0;
@@ -88,6 +91,12 @@ static int h_open(const char *p, int flags, ...)
 	if (e) { errno = e; return -1; }
 	return open(p, flags, 0);
 }
+static int mmaperr;
+static void *h_mmap(void *a, size_t l, int prot, int fl, int fd, off_t off)
+{
+	if (mmaperr) { errno = mmaperr; return MAP_FAILED; }
+	return mmap(a, l, prot, fl, fd, off);
+}
 static ssize_t h_read(int fd, void *b, size_t n)
 {
 	if (readerr) { errno = readerr; return -1; }
@@ -96,7 +105,9 @@ static ssize_t h_read(int fd, void *b, size_t n)
 
 #define open h_open
 #define openat h_openat
+#define mmap h_mmap
 #include "lib/cdb.c"
+#undef mmap
 #include "lib/fmt.c"
 #include "lib/mmap.c"
 #include "lib/control.c"
@@ -210,10 +221,16 @@ static void put_path(int fd)
 	relpath(fd, p, sizeof(p));
 	puthex(stdout, (unsigned char *)p, strlen(p));
 }
-static int count_fds(void)
+/* descriptors open now; a descriptor that is still open after the request although it was not
+ * before is a leak: it is counted and closed (so that a long run does not end in EMFILE) */
+#define MAXFD 1024
+static unsigned char fdmap[MAXFD];
+static void snapshot_fds(void) { for (int i = 0; i < MAXFD; i++) fdmap[i] = fcntl(i, F_GETFD) != -1; }
+static int close_leaked_fds(void)
 {
 	int n = 0;
-	for (int i = 0; i < 64; i++) if (fcntl(i, F_GETFD) != -1) n++;
+	for (int i = 0; i < MAXFD; i++)
+		if (!fdmap[i] && fcntl(i, F_GETFD) != -1) { close(i); n++; }
 	return n;
 }
 
@@ -246,6 +263,8 @@ int main(void)
 			if (mkdir("users", 0755) || mkdir("control", 0755) || mkdir("doms", 0755) || mkdir("doms/dom", 0755)) die("mkdir");
 			if (strcmp(tok[4], "!") != 0) { unsigned char *v = unhex(tok[4], &vl, 0); write_file(AT_FDCWD, "control/vpopbounce", v, vl); free(v); }
 			netfail = atoi(tok[5]) & 1;
+			int twice = atoi(tok[5]) & 2;
+			if (atoi(tok[5]) & 4) write_file(AT_FDCWD, "control/filterconf", (const unsigned char *)"global\n", 7);
 			if (strcmp(tok[6], "!") == 0) ;
 			else if (strcmp(tok[6], "dir") == 0) { if (mkdir("users/cdb", 0755)) die("mkdir cdb"); write_file(AT_FDCWD, "users/cdb/.keep", NULL, 0); }
 			else if (strcmp(tok[6], "-") == 0) write_file(AT_FDCWD, "users/cdb", NULL, 0);
@@ -253,16 +272,17 @@ int main(void)
 			else write_cdb(tok[6]);
 			make_entries("doms/dom", tok[7]);
 			make_entries("doms", tok[8]);
-			ninj = 0; readerr = 0;
+			ninj = 0; readerr = 0; mmaperr = 0;
 			if (strcmp(tok[9], "-") != 0) {
 				char *save = NULL;
 				for (char *e = strtok_r(tok[9], ",", &save); e && ninj < MAXINJ; e = strtok_r(NULL, ",", &save)) {
 					char *c = strchr(e, ':'); if (!c) die("inject"); *c++ = 0;
 					if (strcmp(e, "#read") == 0) { readerr = atoi(c); continue; }
+					if (strcmp(e, "#mmap") == 0) { mmaperr = atoi(c); continue; }
 					size_t l; inj[ninj].path = (char *)unhex(e, &l, 1); inj[ninj].err = atoi(c); ninj++;
 				}
 			}
-			int fds0 = count_fds();
+			snapshot_fds();
 			controldir_fd = get_dirfd(AT_FDCWD, "control");
 			eccalls = 0;
 			for (int i = 0; i < nopened; i++) free(opened[i]);
@@ -275,6 +295,12 @@ int main(void)
 			string lp = { .s = addr, .len = ll };
 			errno = 0;
 			int r = ir ? -100000 - ir : user_exists(&lp, domain, &ds);
+			if (twice && !ir) {
+				/* the same struct userconf again without userconf_free(), as with the global cache used for MAIL FROM */
+				for (int i = 0; i < nopened; i++) free(opened[i]);
+				nopened = 0; eccalls = 0;
+				r = user_exists(&lp, domain, &ds);
+			}
 			printf("r=%d dp=", r);
 			puthex(stdout, (unsigned char *)ds.domainpath.s, ds.domainpath.len);
 			printf(" dom="); put_path(ds.domaindirfd);
@@ -288,14 +314,20 @@ int main(void)
 				if (fd < 0) printf("%d:E%d", (int)type, errno);
 				else { printf("%d:", (int)type); put_path(fd); close(fd); }
 			} else putchar('-');
+			printf(" gg=");
+			if (r > 0 && r != 5) {
+				enum config_domain type = CONFIG_NONE;
+				int fd = getfile(&ds, "filterconf", &type, userconf_global);
+				if (fd < 0) printf("%d:E%d", (int)type, errno);
+				else { printf("%d:", (int)type); put_path(fd); close(fd); }
+			} else putchar('-');
 			printf(" opened=");
 			if (nuser == 0) putchar('-');
 			for (int i = 0; i < nuser; i++) { if (i) putchar(','); fputs(opened[i], stdout); }
 			userconf_free(&ds);
 			userbackend_free();
 			close(controldir_fd);
-			int fds1 = count_fds();
-			if (fds1 != fds0) printf(" fdleak=%d", fds1 - fds0);
+			printf(" fdleak=%d", close_leaked_fds());
 			putchar('\n');
 			for (int i = 0; i < ninj; i++) free(inj[i].path);
 			free(loc); free(tail); free(domain); free(addr);
